@@ -733,9 +733,17 @@ func (e *Engine) sourceNames(fn *ssa.Function) map[string]nameRef {
 // reaching picks the SSA version of a named variable that reaches the start (or, with atEnd, the
 // end) of block at: the candidate whose definition dominates the point and is dominated by every
 // other such candidate.
-func reaching(nr nameRef, at *ssa.BasicBlock, atEnd bool) ssa.Value {
+func reaching(nr nameRef, at *ssa.BasicBlock, atEnd bool, before ssa.Instruction) ssa.Value {
 	if at == nil || len(nr.vals) <= 1 {
 		return nr.val
+	}
+	beforePos := -1
+	if before != nil && before.Block() == at {
+		for k, x := range at.Instrs {
+			if x == before {
+				beforePos = k
+			}
+		}
 	}
 	defBlock := func(v ssa.Value) *ssa.BasicBlock {
 		if ins, ok := v.(ssa.Instruction); ok {
@@ -759,8 +767,14 @@ func reaching(nr nameRef, at *ssa.BasicBlock, atEnd bool) ssa.Value {
 	for _, v := range nr.vals {
 		db := defBlock(v)
 		if db == at {
-			if _, isPhi := v.(*ssa.Phi); !isPhi && !atEnd {
-				continue // defined later in the same block
+			if _, isPhi := v.(*ssa.Phi); !isPhi {
+				if beforePos >= 0 {
+					if pos(v) >= beforePos {
+						continue // defined after the instruction the clause is attached to
+					}
+				} else if !atEnd {
+					continue // defined later in the same block
+				}
 			}
 		} else if !db.Dominates(at) {
 			continue
